@@ -51,23 +51,49 @@ func Topology.Delete
   modifies everything
 func Topology.Get
   props C18
+// (data invariant of peer lists, as a precondition where it is needed: they hold no nil peer)
+define PeersOK(l) = l != nil && (forall i int :: 0 <= i && i < len(l.L) ==> l.L[i] != nil)
 func Topology.Each
   props C18
-  requires TopoOK(t)
+  // (its only caller, Agent.route, passes a list of its own; with l == nil the topology's
+  // lists themselves would be shuffled in place)
+  requires TopoOK(t) && n >= 0 && PeersOK(l) && (forall r string :: has(t.m, r) ==> PeersOK(t.m[r]))
   modifies everything
-  loop 1 invariant TopoOK(t)
+  // one round only touches the list being built (and lists allocated in the round): the
+  // topology's own lists are left alone
+  loop 1 modifies p.L
 
 func PeerList.Update
   modifies everything
 func PeerList.Delete
   modifies everything
+// filtering builds a NEW list: the receiver (often a list owned by the topology) is not touched
+func PeerList.Filter
+  props C18
+  requires PeersOK(l)
+  requires pure_fn(f)
+  iterates f over x where x != nil
+  ensures result != nil && fresh(result)
+  ensures fresh(result.L)
+  ensures PeersOK(result)
+  loop 1 invariant fresh(b.L) && (forall k int :: 0 <= k && k < len(b.L) ==> b.L[k] != nil)
+  loop 1 invariant PeersOK(l) && l.L == old(l.L)
 func PeerList.Exclude
-  ensures result != nil
+  props C18
+  requires PeersOK(l) && (ex == nil || PeersOK(ex))
+  ensures result != nil && PeersOK(result)
+  ensures ex != nil ==> fresh(result) && fresh(result.L)
+// ASSUMED (math/rand.Shuffle with a swapping closure): a permutation, so no nil peer appears
 func PeerList.Shuffle
+  requires PeersOK(l)
   modifies l.L[*]
   ensures result == l
+  assumes PeersOK(l)
 func PeerList.Take
+  props C18
+  requires n >= 0
 func PeerList.Append
+  props C18
   modifies l.L
 
 // publishing hands the message to the bus subscribers (ghost bookkeeping of what was published)
